@@ -92,6 +92,13 @@ func genC04(c *Ctx) {
 		{"jwt", "t.jwt", jwtWith(map[string]any{"sub": "s", "iss": "i", "aud": "a", "jti": "j", "exp": "1700000000", "iat": "1700000000", "nbf": "1700000000"},
 			map[string]any{"alg": "ES256", "typ": "JWT", "kid": "k", "x5u": "u", "jku": "j"})},
 		{"rpm", "p.rpm", fixture("rpm/RSA-2048-sha256.rpm")},
+		{"uuid-v1", "u1.txt", []byte("c232ab00-9414-11ec-b3c8-9f6bdeced846\n")},
+		{"uuid-v6", "u6.txt", []byte("1EC9414C-232A-6B00-B3C8-9E6BDECED846")},
+		{"uuid-v7", "u7.txt", []byte("017F22E2-79B0-7CC3-98C4-DC0C0C07398F")},
+		// generic ASN.1 dump with UTCTime values just before midnight UTC, one with a zone offset
+		{"asn1-utctime", "t.der", []byte{0x30, 0x20, 0x17, 0x0d, '2', '4', '0', '3', '0', '1', '2', '3', '3', '0', '0', '0', 'Z',
+			0x17, 0x0f, '2', '4', '0', '3', '0', '1', '2', '3', '3', '0', '+', '0', '1', '0', '0'}},
+		{"jwt-numeric-dates", "n.jwt", jwtWith(map[string]any{"exp": 1709335800, "nbf": 1709335800.5, "iat": 1}, map[string]any{"alg": "none"})},
 		{"ppk", "k.ppk", fixture("putty/ecdsa-enc-argon2i.ppk")},
 	}
 	nc := 6
